@@ -251,7 +251,16 @@ def main():
         pid = p["id"]
         if pid not in P:
             continue
-        m = P[pid]
+        m = dict(P[pid])
+        # keep the theorem count in the text in step with what the last run of the check audited
+        try:
+            ev = json.load(open("/verif/evidence/%s.json" % pid))
+            n = ev["coverage"]["discharged"]
+            import re
+            m["text"] = re.sub(r"^(\d+)( of \d+)? Lean theorems", "%d Lean theorems" % n, m["text"])
+            m["text"] = re.sub(r"\((\d+) theorems\)", "(%d theorems)" % n, m["text"])
+        except Exception:
+            pass
         checks.append({
             "property_id": pid,
             "quick_cmd": "./check %s --tier quick" % pid,
